@@ -374,7 +374,7 @@ def _cases(chk) -> list[dict]:
     # A. exhaustive statement-level interleavings of script pairs
     pairs = [(a, b) for a in range(len(CORE_SCRIPTS)) for b in range(len(CORE_SCRIPTS))]
     rnd.shuffle(pairs)
-    npairs = 16 if quick else 80    # thorough: a seeded sample of the ordered pairs (all of them is 125 CPU-min)
+    npairs = 16 if quick else 60    # thorough: a seeded sample of the ordered pairs (all of them is 125 CPU-min)
     for pi, (ia, ib) in enumerate(pairs[:npairs]):
         a, b = _inst(CORE_SCRIPTS[ia], 0), _inst(CORE_SCRIPTS[ib], 1)
         policy = ("dense", "others", "sparse", "others")[pi % 4] if quick else None
@@ -395,7 +395,7 @@ def _cases(chk) -> list[dict]:
         for order in _interleavings(len(a), len(b)):
             cases.append(dict(_pair_case(rnd, a, b, order, "dense", False, rnd.randrange(1 << 30)), gen="finding-pairs"))
     # C. random histories, 2-3 connections, in and out of the envelope
-    nrand = 300 if quick else 3000
+    nrand = 300 if quick else 2500
     for i in range(nrand):
         nconn = rnd.choice([2, 3, 3])
         base = _random_case(rnd, nconn, rnd.randint(3, 9), envelope=(i % 5 != 0), spell=rnd.randrange(1 << 30))
